@@ -250,6 +250,19 @@ def value_seq(b, vals, m):
     return [("?", v.show()[:50])]
 
 
+def _is_peek(path):
+    return path.endswith(("BinaryHeap::<T, A>::peek", "BinaryHeap::<T, A>::peek_mut"))
+
+
+def _is_pop(path):
+    """removal of the greatest element: BinaryHeap::pop, or PeekMut::pop on the handle peek_mut() returned"""
+    return path.endswith("BinaryHeap::<T, A>::pop") or ("PeekMut" in path and path.endswith("::pop"))
+
+
+def heap_pops(b):
+    return [(s, c, t) for s, c, t in b.calls() if c and _is_pop(callee_name(c))]
+
+
 def assume_heap_entries_current(ck, R, b):
     """Invariant of the merge heap: every entry in it lies on an entry of its source (`cursor.current()` is
     Some) — entries are pushed only right after a `move_on_next()` that returned Some (C06-R2 pushed-iff-non-empty
@@ -272,7 +285,7 @@ def assume_heap_entries_current(ck, R, b):
         if p is None:
             return False
         p = p.strip()
-        return p.k == "call" and p.x["path"].rsplit("::", 1)[-1] in ("pop", "peek", "peek_mut") and "BinaryHeap" in p.x["path"] and p.a and is_self_field(p.a[0], "heap")
+        return p.k == "call" and (_is_pop(p.x["path"]) or _is_peek(p.x["path"])) and p.a and (is_self_field(p.a[0], "heap") or any(w.k == "field" and w.x["name"] == "heap" for w in p.a[0].walk()))
     for bb in sorted(b.normal_blocks()):
         t = b.term(bb)
         if t["t"] != "switch":
@@ -299,7 +312,7 @@ def r4_merge_once(ck, F, R="C06-R4"):
     assume_heap_entries_current(ck, R, b)
     ms = calls(b, "MergeFunction::merge")
     ck.floor(R, "merge call sites in MergerIter::next", len(ms), 1, F.config)
-    pops = calls(b, "BinaryHeap::<T, A>::pop")
+    pops = heap_pops(b)
     if not ms or not pops:
         return
     first_pop = min(pops, key=lambda x: x[0].key())[0]
@@ -364,7 +377,7 @@ def r4_merge_once(ck, F, R="C06-R4"):
 def r5_pop_push(ck, F, R="C06-R5"):
     b = F.body(A("merger_iter_next"))
     assume_heap_entries_current(ck, R, b)
-    pops = sorted(calls(b, "BinaryHeap::<T, A>::pop"), key=lambda x: x[0].key())
+    pops = sorted(heap_pops(b), key=lambda x: x[0].key())
     ck.exact(R, "heap pops in MergerIter::next", len(pops), 2, F.config)
     if len(pops) != 2:
         return
@@ -374,10 +387,10 @@ def r5_pop_push(ck, F, R="C06-R5"):
     for c in cmps:
         x, y = c["a"], c["b"]
         okf = any(e.k == "call" and e.x.get("site") == p1 for e in x.walk()) and x.strip().k == "field" and x.strip().x["idx"] == 0
-        oko = any(e.k == "call" and e.x["path"].endswith("BinaryHeap::<T, A>::peek") for e in y.walk()) and y.strip().k == "field" and y.strip().x["idx"] == 0
+        oko = any(e.k == "call" and _is_peek(e.x["path"]) for e in y.walk()) and y.strip().k == "field" and y.strip().x["idx"] == 0
         if not okf:
             okf = any(e.k == "call" and e.x.get("site") == p1 for e in y.walk()) and y.strip().k == "field" and y.strip().x["idx"] == 0
-            oko = any(e.k == "call" and e.x["path"].endswith("BinaryHeap::<T, A>::peek") for e in x.walk()) and x.strip().k == "field" and x.strip().x["idx"] == 0
+            oko = any(e.k == "call" and _is_peek(e.x["path"]) for e in x.walk()) and x.strip().k == "field" and x.strip().x["idx"] == 0
         ck.ob(R, "gather-relation", c["op"] in ("==", "!=") and okf and oko, f"gathering is decided by `first key {c['op']} top-of-heap key` (whole-key equality or its negation)", b, c["site"])
         ed = bool_edges(b, value_site=c["site"])
         if ed is not None and c["op"] == "!=":
@@ -385,7 +398,7 @@ def r5_pop_push(ck, F, R="C06-R5"):
         ok = ed is not None and b.dominates(ed[1], p2.bb) and not b.dominates(ed[2], p2.bb) and b.in_loop(p2.bb)
         ck.ob(R, "gather-arms", ok, "equal => pop it into tmp_entries and continue; different => stop gathering", b, c["site"])
     # gathering is never skipped: reaching the inspection of the heap top depends on nothing but "there was a first entry"
-    pk = [s for s, c, t in calls(b, "BinaryHeap::<T, A>::peek")]
+    pk = [s for s, c, t in b.calls() if c and _is_peek(callee_name(c))]
     ck.floor(R, "inspections of the heap top while gathering", len(pk), 1, F.config)
     for s in pk:
         extra = []
@@ -393,7 +406,7 @@ def r5_pop_push(ck, F, R="C06-R5"):
             ge = b.expr_of_operand(b.term(gbb)["discr"], Site(gbb, None))
             sh = ge.show()
             okg = (ge.k == "discr" and any(x.k == "call" and x.x.get("site") == p1 for x in ge.walk())) or \
-                  (ge.k == "discr" and any(x.k == "call" and x.x["path"].endswith("BinaryHeap::<T, A>::peek") for x in ge.walk()))
+                  (ge.k == "discr" and any(x.k == "call" and _is_peek(x.x["path"]) for x in ge.walk()))
             if not okg:
                 extra.append(sh[:60])
         ck.ob(R, "gather-not-skippable", not extra, "every call inspects the heap top for entries with the same key" + (f" — NOT: gathering is skipped depending on {extra}" if extra else ""), b, s)
